@@ -47,6 +47,7 @@ type vfSock struct {
 	writeErr error // injected: WriteTo fails with it
 	nread    int
 	nwritten int
+	slowTo   map[string]time.Duration // WriteTo towards these addresses takes this long (a slow path to one peer)
 }
 
 var errVfClosed = errors.New("use of closed network connection")
@@ -102,6 +103,9 @@ func (s *vfSock) ReadFrom(p []byte) (int, net.Addr, error) {
 }
 
 func (s *vfSock) WriteTo(p []byte, addr net.Addr) (int, error) {
+	if d := s.slowTo[addr.String()]; d > 0 {
+		vrt.Sleep(d)
+	}
 	s.mu.Lock()
 	if s.closed {
 		s.mu.Unlock()
